@@ -483,8 +483,8 @@ func (r *freeRun) actor(ai int, a *Actor, doneCh chan<- int) {
 					}
 					r.mu.Lock()
 					r.lastRep[a.Src] = *op.L // the slot is replaced even though the stack was rejected
-					r.mu.Unlock()
 					r.res.Rejects++
+					r.mu.Unlock()
 				case errors.Is(err, context.DeadlineExceeded):
 					r.mu.Lock()
 					r.timedOut = true
